@@ -461,6 +461,25 @@ def s4(tier):
                 if (mt or 0) > 10:
                     continue
                 out.append(spec(factors, {'op': 'repeat', 'block': b, 'constraints': cs}, 'S4'))
+    return out + s4_multi(tier)
+
+
+def s4_multi(tier):
+    """Repeat / Merge of a multi-crossing block (crossings of different sizes, so the crossings carry different weights), with
+    and without a weighted factor that is in only one of the crossings"""
+    out = []
+    B = basic('B', 2)
+    C = basic('C', 3)
+    for wA in (None, [2, 1]):
+        A = basic('A', 2, wA)
+        for crossings in ([['A'], ['C']], [['C'], ['A']], [['A', 'B'], ['C']]):
+            for mode in ('weight', 'repeat'):
+                inner = {'op': 'multi', 'design': ['A', 'B', 'C'], 'crossings': crossings, 'constraints': [], 'rcc': True, 'mode': mode,
+                         'alignment': 'equal preamble'}
+                out.append(spec([A, B, C], {'op': 'repeat', 'block': inner, 'constraints': []}, 'S4'))
+                out.append(spec([A, B, C], {'op': 'merge', 'blocks': [inner], 'constraints': [], 'mode': 'repeat'}, 'S4'))
+                for mt in (6, 7):
+                    out.append(spec([A, B, C], {'op': 'repeat', 'block': inner, 'constraints': [{'c': 'MinimumTrials', 'k': mt}]}, 'S4'))
     return out
 
 
